@@ -97,7 +97,7 @@ const (
 	// StreamBudgetBase is the minimum memory budget any stream decode
 	// starts with, independent of input size, so that the largest
 	// individual filter buffer fits even for tiny inputs.
-	StreamBudgetBase = 8 << 20 // 8 MiB
+	StreamBudgetBase = 16 << 20 // 16 MiB
 
 	// StreamBudgetMultiplier is the maximum number of bytes of working
 	// memory the filter chain may allocate per byte of raw input.
@@ -129,7 +129,7 @@ func StreamBudget(rawLen int64) int64 {
 
 // ShadingBudget returns the memory budget for holding the decoded vertices or
 // patches of a mesh shading whose stream is rawLen decoded bytes.  The budget
-// is sized as [StreamBudgetBase] + [MaxShadingExpansion]·rawLen, so the 8 MiB
+// is sized as [StreamBudgetBase] + [MaxShadingExpansion]·rawLen, so the 16 MiB
 // floor admits small meshes regardless of bit packing while the expansion
 // slope keeps retained memory proportional to the input.  rawLen is bounded by
 // [MaxShadingBytes], so the product stays well inside int64.
